@@ -19,6 +19,7 @@ pub mod c18;
 pub mod c19;
 pub mod c20;
 pub mod clock;
+pub mod reports;
 
 /// entry for internal child-process sub-commands
 pub fn child_main(args: &[String]) -> i32 {
